@@ -465,7 +465,13 @@ def check_overrides(schema: Type[MetadataSchema]):
     # all undeclared overrides must be strict subtypes of the inherited type:
     for fname in undecl_override:
         hint, parent_hint = hints[fname], base_hints[fname]
-        if not is_subtype(hint, parent_hint):
+        # a default value of None makes a field optional, regardless of the type hint
+        fld = schema.__fields__.get(fname)
+        parent_fld = schema.__base__.__fields__.get(fname)
+        turned_optional = (
+            fld and parent_fld and fld.allow_none and not parent_fld.allow_none
+        )
+        if turned_optional or not is_subtype(hint, parent_hint):
             parent = infer_parent(schema)
             parent_name = (
                 parent.Fields[fname]._origin_name
